@@ -223,10 +223,15 @@ func (u *CacheOnReadFs) OpenFile(name string, flag int, perm os.FileMode) (File,
 	switch st {
 	case cacheLocal, cacheHit:
 	default:
-		if err := u.copyFileToLayer(name, flag, perm); err != nil {
+		// a directory is not copied like a file: make it in the layer (what copyToLayer does)
+		if bfi, berr := u.base.Stat(name); berr == nil && bfi.IsDir() {
+			if err := u.layer.MkdirAll(name, bfi.Mode().Perm()); err != nil {
+				return nil, err
+			}
+		} else if err := u.copyFileToLayer(name, flag, perm); err != nil {
 			return nil, err
 		}
-		// the call above has created the file when O_CREATE|O_EXCL asked for it
+		// copyFileToLayer has created the file when O_CREATE|O_EXCL asked for it
 		flag &^= os.O_EXCL
 	}
 	if flag&(os.O_WRONLY|syscall.O_RDWR|os.O_APPEND|os.O_CREATE|os.O_TRUNC) != 0 {
